@@ -86,11 +86,17 @@ Fixpoint path_remove (s : str) (ks : list str) : option str :=
       end
   end.
 
-Definition env := list (str * str).
+(* a variable is absent (None) or holds a string; set/unset through a path treat an absent
+   variable as an empty dictionary and create it only when they succeed *)
+Definition env := list (str * option str).
 Definition e_get (e : env) (v : str) : str :=
-  match find (fun kv => str_eqb (fst kv) v) e with Some kv => snd kv | None => [] end.
+  match find (fun kv => str_eqb (fst kv) v) e with Some (_, Some s) => s | _ => [] end.
+Definition e_has (e : env) (v : str) : bool :=
+  match find (fun kv => str_eqb (fst kv) v) e with Some (_, Some _) => true | _ => false end.
 Definition e_set (e : env) (v s : str) : env :=
-  map (fun kv => if str_eqb (fst kv) v then (v, s) else kv) e.
+  map (fun kv => if str_eqb (fst kv) v then (v, Some s) else kv) e.
+Definition e_drop (e : env) (v : str) : env :=
+  map (fun kv => if str_eqb (fst kv) v then (v, None) else kv) e.
 
 Definition is_op (o : term) (k : string) : bool := str_eqb (term_str (term_nth o 0)) (lit k).
 
@@ -113,6 +119,10 @@ Definition spec_op (e : env) (o : term) : env * option str :=
     | Some s => (e_set e a1 s, Some s)
     | None => (e, None)
     end
+  else if is_op o "drop" then (e_drop e a1, Some [])
+  else if (is_op o "remove" || is_op o "copy") && negb (e_has e (term_str (term_nth o 2))) then (e, None)
+  else if (is_op o "get" || is_op o "exists" || is_op o "keys" || is_op o "values" || is_op o "size")
+          && negb (e_has e a1) then (e, None)
   else if is_op o "remove" then
     match parse_dict (e_get e (term_str (term_nth o 2))) with
     | Some d => let s := format_dict (fold_left a_remove (term_strs (term_nth o 3)) d) in (e_set e a1 s, Some s)
@@ -146,13 +156,16 @@ Definition outcome_matches (exp : option str) (obs : term) : bool :=
 
 Definition c15_spec_ok (c obs : term) : bool :=
   let ops := term_list (term_nth c 3) in
-  let e0 := [(lit "d", []); (lit "e", []); (lit "f", [])] in
+  let e0 := [(lit "d", Some []); (lit "e", Some []); (lit "f", Some [])] in
   let '(e, outs) := spec_run e0 ops [] in
   match term_list obs with
   | [TList (_ :: obs_outs); _; TList vars; _] =>
       Nat.eqb (length outs) (length obs_outs)
       && forallb (fun p => outcome_matches (fst p) (snd p)) (combine outs obs_outs)
-      && term_eqb (TList vars) (TList (map (fun kv => TTag "scalar" [TStr (snd kv)]) e))
+      && term_eqb (TList vars) (TList (map (fun kv => match snd kv with
+                                                          | Some s => TTag "scalar" [TStr s]
+                                                          | None => TTag "unset" []
+                                                          end) e))
   | _ => false
   end.
 Definition c15_known (c : term) : bool := false.
